@@ -1,12 +1,19 @@
 //! C17 — configuration survives render -> parse (one-line `{...}` form on a code fence,
-//! serde_yaml block form for test case and document configuration, front-matter).
+//! serde_yaml block form for test case and document configuration, front-matter, and the test
+//! case generator that `create` / `--convert markdown` use to write the `{...}` form).
 
 use std::time::Duration;
 
 use scrut::config::DocumentConfig;
 use scrut::config::TestCaseConfig;
 use scrut::config::DEFAULT_DOCUMENT_TIMEOUT;
+use scrut::escaping::Escaper;
+use scrut::generators::generator::TestCaseGenerator;
+use scrut::generators::markdown::MarkdownTestCaseGenerator;
+use scrut::outcome::Outcome;
 use scrut::parsers::markdown::MarkdownParser;
+use scrut::parsers::parser::ParserType;
+use scrut::testcase::TestCase;
 use scrut::parsers::parser::Parser;
 use serde::Deserialize;
 use serde::Serialize;
@@ -22,8 +29,11 @@ pub struct C17;
 
 #[derive(Clone, Debug, Default, Serialize, Deserialize)]
 pub struct C17Case {
-    /// "one-liner" | "block-testcase" | "block-document" | "front-matter"
+    /// "one-liner" | "block-testcase" | "block-document" | "front-matter" | "generator"
     pub mode: String,
+    /// generator mode: the outcome comes from a Cram document (format defaults of Cram)
+    #[serde(default)]
+    pub cram: bool,
     /// used by one-liner and block-testcase
     #[serde(default)]
     pub tc: TcCfg,
@@ -182,7 +192,85 @@ fn run(case: &C17Case) -> Result<String, Fail> {
             differs(diff_doc(&back, &real), &y, format!("{back:?}"), format!("{real:?}"))?;
             Ok(y)
         }
+        "generator" => {
+            let original = generator_original(case);
+            let outcome = Outcome {
+                location: None,
+                output: ("", "", Some(0)).into(),
+                testcase: TestCase {
+                    title: "generated".into(),
+                    shell_expression: "true".into(),
+                    expectations: vec![],
+                    exit_code: None,
+                    line_number: 1,
+                    config: original.to_real(),
+                },
+                format: if case.cram { ParserType::Cram } else { ParserType::Markdown },
+                escaping: Escaper::default(),
+                result: Ok(()),
+            };
+            let text = MarkdownTestCaseGenerator::default().generate_testcases(&[&outcome]).map_err(|e| Fail {
+                clause: "render-error",
+                keys: vec![],
+                detail: format!("generate_testcases fails: {e:#}"),
+            })?;
+            // a generated .md document is read with the Markdown format defaults (file_parser.rs)
+            let parser = MarkdownParser::new(maker(), &["scrut"], None);
+            let (_, tests) = parser.parse(&text).map_err(|e| Fail {
+                clause: "parse-error",
+                keys: vec![],
+                detail: format!("generated document {text:?} is rejected by the Markdown parser: {e:#}"),
+            })?;
+            if tests.len() != 1 {
+                return Err(Fail {
+                    clause: "test-count",
+                    keys: vec![],
+                    detail: format!("generated document {text:?} has {} tests instead of 1", tests.len()),
+                });
+            }
+            let keys = match TcCfg::from_real(&tests[0].config) {
+                None => vec!["unrepresentable".to_string()],
+                Some(got) => {
+                    let (g, w) = (effective(&got), effective(&original));
+                    TC_KEYS.iter().filter(|k| !g.key_eq(&w, k)).map(|k| k.to_string()).collect()
+                }
+            };
+            differs(keys, &text, format!("{:?} (effective values compared)", tests[0].config), format!("{:?}", original.to_real()))?;
+            Ok(text)
+        }
         _ => Ok(String::new()),
+    }
+}
+
+/// generator mode: the configuration of the original test case = its own keys over the defaults of
+/// the format it was written in (Markdown: stdout; Cram: combined, CRLF kept; both: skip code 80)
+fn generator_original(case: &C17Case) -> TcCfg {
+    let format_default = if case.cram {
+        TcCfg {
+            output_stream: Some("combined".into()),
+            keep_crlf: Some(true),
+            skip_document_code: Some(80),
+            ..Default::default()
+        }
+    } else {
+        TcCfg {
+            output_stream: Some("stdout".into()),
+            skip_document_code: Some(80),
+            ..Default::default()
+        }
+    };
+    model_tc(&[&case.tc, &format_default])
+}
+
+/// effective values: an unset key means what the documentation says it means
+fn effective(t: &TcCfg) -> TcCfg {
+    TcCfg {
+        output_stream: Some(t.output_stream.clone().unwrap_or_else(|| "stdout".into())),
+        keep_crlf: Some(t.keep_crlf.unwrap_or(false)),
+        detached: Some(t.detached.unwrap_or(false)),
+        skip_document_code: Some(t.skip_document_code.unwrap_or(80)),
+        strip_ansi_escaping: Some(t.strip_ansi_escaping.unwrap_or(false)),
+        ..t.clone()
     }
 }
 
@@ -235,6 +323,14 @@ const FEATURES: &[(&str, &str)] = &[
     ("numeric", "123"),
     ("dollar", "a$b"),
     ("equals", "a=b"),
+    ("multi-line", "a\nb"),
+    ("line-dashes", "a\n---\nb"),
+    ("line-dots", "a\n...\nb"),
+    ("line-lead-blank", "a\n  b"),
+    ("first-line-lead-blank", "  a\nb"),
+    ("trail-newline", "a\n"),
+    ("lead-newline", "\na"),
+    ("empty-line", "a\n\nb"),
 ];
 
 /// coarse class of a feature: what a correct renderer has to do about it. Signatures carry the class
@@ -243,12 +339,13 @@ fn class_of(feature: &str) -> &'static str {
     match feature {
         "dquote" | "backslash" | "backslash-escape" => "dquote-unsafe",
         "non-ascii" => "non-ascii",
+        "multi-line" | "line-dashes" | "line-dots" | "line-lead-blank" | "first-line-lead-blank" | "trail-newline" | "lead-newline" | "empty-line" => "multi-line",
         "squote" | "colon" | "hash" | "inner-space" | "dollar" | "equals" => "plain-safe",
         _ => "plain-unsafe",
     }
 }
 
-const CLASS_ORDER: [&str; 4] = ["dquote-unsafe", "plain-unsafe", "non-ascii", "plain-safe"];
+const CLASS_ORDER: [&str; 5] = ["multi-line", "dquote-unsafe", "plain-unsafe", "non-ascii", "plain-safe"];
 
 fn probe_of(feature: &str) -> &'static str {
     FEATURES.iter().find(|(f, _)| *f == feature).map(|(_, p)| *p).unwrap_or("a")
@@ -319,6 +416,18 @@ fn features(s: &str) -> Vec<&'static str> {
     );
     add("dollar", s.contains('$'));
     add("equals", s.contains('='));
+    if s.contains('\n') {
+        let lines: Vec<&str> = s.split('\n').collect();
+        let inner = &lines[..lines.len() - if s.ends_with('\n') { 1 } else { 0 }];
+        add("multi-line", true);
+        add("line-dashes", lines.iter().any(|l| *l == "---"));
+        add("line-dots", lines.iter().any(|l| *l == "..."));
+        add("line-lead-blank", lines.iter().skip(1).any(|l| l.starts_with(' ')));
+        add("first-line-lead-blank", lines[0].starts_with(' '));
+        add("trail-newline", s.ends_with('\n'));
+        add("lead-newline", s.starts_with('\n'));
+        add("empty-line", inner.iter().skip(1).any(|l| l.is_empty()));
+    }
     v
 }
 
@@ -373,6 +482,7 @@ fn set_paths(case: &C17Case) -> Vec<String> {
 fn restrict(case: &C17Case, path: &str) -> C17Case {
     let mut c = C17Case {
         mode: case.mode.clone(),
+        cram: case.cram,
         ..Default::default()
     };
     if case.uses_doc() {
@@ -389,6 +499,27 @@ fn restrict(case: &C17Case, path: &str) -> C17Case {
         }
     } else {
         c.tc = case.tc.only(path);
+    }
+    c
+}
+
+/// copy of the case with one key unset
+fn without_path(case: &C17Case, path: &str) -> C17Case {
+    let mut c = case.clone();
+    if case.uses_doc() {
+        match path {
+            "append" => c.doc.append.clear(),
+            "prepend" => c.doc.prepend.clear(),
+            "shell" => c.doc.shell = None,
+            "total_timeout" => c.doc.total_timeout_ms = None,
+            p => {
+                if let Some(k) = p.strip_prefix("defaults.") {
+                    c.doc.defaults = case.doc.defaults.without(k);
+                }
+            }
+        }
+    } else {
+        c.tc = case.tc.without(path);
     }
     c
 }
@@ -424,9 +555,10 @@ fn all_strings(case: &C17Case) -> Vec<String> {
 }
 
 /// a configuration that carries exactly one string `s` in the position (path, role)
-fn probe_case(mode: &str, path: &str, role: &str, s: &str) -> C17Case {
+fn probe_case(mode: &str, cram: bool, path: &str, role: &str, s: &str) -> C17Case {
     let mut c = C17Case {
         mode: mode.to_string(),
+        cram,
         ..Default::default()
     };
     let mut tc = TcCfg::default();
@@ -476,7 +608,7 @@ fn isolate_feature(r: &C17Case, path: &str, clause: &str) -> String {
         for class in CLASS_ORDER {
             for (role, s) in &items {
                 for f in features(s).into_iter().filter(|f| class_of(f) == class) {
-                    let pc = probe_case(&r.mode, path, role, probe_of(f));
+                    let pc = probe_case(&r.mode, r.cram, path, role, probe_of(f));
                     if let Err(pf) = run(&pc) {
                         if !same_clause || pf.clause == clause {
                             return format!("{role}:{class}");
@@ -503,7 +635,7 @@ fn isolate_feature(r: &C17Case, path: &str, clause: &str) -> String {
             return format!("timeout:{}", duration_sig(w.timeout_ms, false));
         }
     }
-    format!("{}:other", items[0].0)
+    "other".to_string()
 }
 
 // ---------------------------------------------------------------------------------------------
@@ -540,6 +672,28 @@ pub fn gen_string(rng: &mut Rng) -> String {
             s
         }
     }
+}
+
+const ML_LINES: &[&str] = &[
+    "---", "...", "--- ", " ---", "----", "title: x", "body", "", "  indented", " one blank", "- item", "# comment", "key: |", "a \"quoted\" word",
+    "back\\slash", "\u{fc}ber", "trailing blank ", "{not: flow}", "```", "```scrut", "$ echo", "%YAML 1.2",
+];
+
+/// a value of two to four lines, with or without a final line break
+pub fn gen_multiline(rng: &mut Rng) -> String {
+    let n = 2 + rng.below(3);
+    let mut lines: Vec<&str> = (0..n).map(|_| *rng.pick(ML_LINES)).collect();
+    if rng.chance(1, 3) {
+        let at = rng.below(n);
+        lines[at] = "---";
+    }
+    let mut s = lines.join("\n");
+    match rng.below(6) {
+        0 | 1 => s.push('\n'),
+        2 => s.push_str("\n\n"),
+        _ => {}
+    }
+    s
 }
 
 fn gen_name(rng: &mut Rng) -> String {
@@ -600,7 +754,7 @@ pub fn gen_tc(rng: &mut Rng) -> TcCfg {
     if mask & 128 != 0 {
         for _ in 0..1 + rng.below(3) {
             let name = gen_name(rng);
-            let value = gen_string(rng);
+            let value = if rng.chance(1, 5) { gen_multiline(rng) } else { gen_string(rng) };
             t.environment.insert(name, value);
         }
     }
@@ -716,10 +870,18 @@ impl Monitor for C17 {
         );
         p.floor_nontrivial = tier.pick(3_000, 30_000);
         p.floor_buckets = vec![
-            ("mode:one-liner".into(), tier.pick(4_000, 240_000)),
-            ("mode:block-testcase".into(), tier.pick(1_500, 90_000)),
+            ("mode:one-liner".into(), tier.pick(3_500, 210_000)),
+            ("mode:block-testcase".into(), tier.pick(1_200, 72_000)),
             ("mode:block-document".into(), tier.pick(1_000, 60_000)),
             ("mode:front-matter".into(), tier.pick(1_000, 60_000)),
+            ("mode:generator".into(), tier.pick(1_000, 60_000)),
+            ("generator:from-cram".into(), tier.pick(500, 30_000)),
+            ("generator:from-markdown".into(), tier.pick(500, 30_000)),
+            ("str:multi-line".into(), tier.pick(1_000, 60_000)),
+            ("str:line-dashes".into(), tier.pick(400, 24_000)),
+            ("str:line-dots".into(), tier.pick(120, 7_200)),
+            ("str:line-lead-blank".into(), tier.pick(250, 15_000)),
+            ("str:trail-newline".into(), tier.pick(500, 30_000)),
             ("key:environment".into(), tier.pick(3_000, 180_000)),
             ("key:wait.path".into(), tier.pick(1_200, 72_000)),
             ("str:dquote".into(), tier.pick(400, 24_000)),
@@ -730,7 +892,8 @@ impl Monitor for C17 {
             ("duration:sub-second".into(), tier.pick(300, 18_000)),
         ];
         p.assumptions = vec![
-            "strings contain no control characters (Cc), no U+2028/U+2029/U+FEFF and no line breaks; variable names are shell identifiers".into(),
+            "strings contain no control characters (Cc) and no U+2028/U+2029/U+FEFF, except line feeds in environment values (multi-line values, with lines `---`, `...`, leading blanks, with and without final line feed); variable names are shell identifiers".into(),
+            "generator mode: effective values are compared (an unset key = the documented meaning: stdout, CRLF translated, not detached, skip code 80, no ANSI stripping)".into(),
             "DocumentConfig.total_timeout: None and the documented default 900 s are identified (the renderer omits the default)".into(),
             "paths are valid UTF-8".into(),
         ];
@@ -738,13 +901,30 @@ impl Monitor for C17 {
     }
 
     fn gen(&self, _env: &Env, _k: u64, rng: &mut Rng) -> C17Case {
-        let mode = ["one-liner", "block-testcase", "block-document", "front-matter"][rng.weighted(&[50, 20, 15, 15])];
+        let mode = ["one-liner", "block-testcase", "block-document", "front-matter", "generator"][rng.weighted(&[40, 15, 15, 15, 15])];
         let mut c = C17Case {
             mode: mode.into(),
             ..Default::default()
         };
+        if mode == "generator" {
+            c.cram = rng.bool();
+        }
         if c.uses_doc() {
             c.doc = gen_doc(rng);
+            if rng.chance(1, 25) {
+                // a multi-line value as the very last item of the rendered YAML (the default
+                // total_timeout is omitted by the renderer)
+                let mut d = DocCfg::default();
+                if rng.bool() {
+                    d.defaults.detached = Some(rng.bool());
+                }
+                d.defaults.environment.insert(gen_name(rng), gen_multiline(rng));
+                d.total_timeout_ms = Some(900_000);
+                if rng.bool() {
+                    d.append = vec![gen_string(rng)];
+                }
+                c.doc = d;
+            }
         } else {
             c.tc = gen_tc(rng);
         }
@@ -752,21 +932,35 @@ impl Monitor for C17 {
     }
 
     fn check(&self, _env: &Env, case: &C17Case) -> Checked {
-        if !matches!(case.mode.as_str(), "one-liner" | "block-testcase" | "block-document" | "front-matter") {
+        if !matches!(case.mode.as_str(), "one-liner" | "block-testcase" | "block-document" | "front-matter" | "generator") {
             return Checked::out_of_scope("unknown mode");
         }
         let strings = all_strings(case);
-        // guard: the workload of the property has no control characters / line breaks
-        if strings
-            .iter()
-            .any(|s| s.chars().any(|c| c.is_control() || matches!(c, '\u{2028}' | '\u{2029}' | '\u{feff}')))
-        {
-            return Checked::out_of_scope("string with control character or line separator");
-        }
         let paths = set_paths(case);
+        // guard: the workload of the property has no control characters; line feeds only in
+        // environment values (multi-line values)
+        for p in &paths {
+            for (role, s) in strings_of(case, p) {
+                if s.chars().any(|c| (c.is_control() && !(c == '\n' && role == "value")) || matches!(c, '\u{2028}' | '\u{2029}' | '\u{feff}')) {
+                    return Checked::out_of_scope("string with control character or line separator");
+                }
+            }
+        }
         let rendered = match run(case) {
             Ok(r) => r,
             Err(fail) => {
+                // generator mode: is it the format layer alone (no own key)?
+                if case.mode == "generator" {
+                    let bare = C17Case {
+                        mode: case.mode.clone(),
+                        cram: case.cram,
+                        ..Default::default()
+                    };
+                    if let Err(f) = run(&bare) {
+                        let from = if case.cram { "from-cram" } else { "from-markdown" };
+                        return Checked::violated(format!("C17/generator/{}/format-defaults/{from}", f.clause), f.detail);
+                    }
+                }
                 // isolate the key, then the feature class
                 let mut culprit = None;
                 for p in &paths {
@@ -777,7 +971,25 @@ impl Monitor for C17 {
                     }
                 }
                 let (key, clause, feature) = match culprit {
-                    None => ("combination".to_string(), fail.clause, fail.keys.join("+")),
+                    None => {
+                        // no single key fails alone: smallest failing key set by greedy removal
+                        let mut cur = case.clone();
+                        let mut clause = fail.clause;
+                        for p in &paths {
+                            let cand = without_path(&cur, p);
+                            if let Err(f) = run(&cand) {
+                                cur = cand;
+                                clause = f.clause;
+                            }
+                        }
+                        let keys = set_paths(&cur);
+                        let class = CLASS_ORDER
+                            .iter()
+                            .find(|c| all_strings(&cur).iter().any(|s| features(s).iter().any(|f| class_of(f) == **c)))
+                            .copied()
+                            .unwrap_or("-");
+                        (keys.join("+"), clause, class.to_string())
+                    }
                     Some((p, f, r)) => {
                         let feat = isolate_feature(&r, &p, f.clause);
                         let key = {
@@ -820,6 +1032,9 @@ impl Monitor for C17 {
         durs.dedup();
         let shape = hash_bytes(format!("{}|{:?}|{:?}|{:?}", case.mode, paths, feats, durs).as_bytes());
         let mut c = Checked::held().shape(!paths.is_empty(), shape).bucket(format!("mode:{}", case.mode));
+        if case.mode == "generator" {
+            c = c.bucket(if case.cram { "generator:from-cram" } else { "generator:from-markdown" });
+        }
         for p in &paths {
             c = c.bucket(format!("key:{}", p.strip_prefix("defaults.").unwrap_or(p)));
         }
@@ -848,6 +1063,7 @@ impl Monitor for C17 {
             let mut push = |doc: DocCfg| {
                 v.push(C17Case {
                     mode: case.mode.clone(),
+                    cram: false,
                     tc: TcCfg::default(),
                     doc,
                 })
@@ -906,9 +1122,13 @@ impl Monitor for C17 {
                 });
             }
         } else {
+            if case.cram {
+                v.push(C17Case { cram: false, ..case.clone() });
+            }
             for t in shrink_tc(&case.tc) {
                 v.push(C17Case {
                     mode: case.mode.clone(),
+                    cram: case.cram,
                     tc: t,
                     doc: DocCfg::default(),
                 });
@@ -922,6 +1142,9 @@ impl Monitor for C17 {
             serde_yaml::to_string(&case.doc.to_real()).unwrap_or_else(|e| format!("<render error {e}>"))
         } else if case.mode == "one-liner" {
             case.tc.to_real().to_yaml_one_liner()
+        } else if case.mode == "generator" {
+            return json!({"mode": case.mode, "source_format": if case.cram { "cram" } else { "markdown" }, "own_keys": case.tc,
+                "original_config": generator_original(case), "generated": run(case).unwrap_or_else(|f| f.detail)});
         } else {
             serde_yaml::to_string(&case.tc.to_real()).unwrap_or_else(|e| format!("<render error {e}>"))
         };
